@@ -304,3 +304,63 @@ class Stamped(metaclass=StableHashMeta):
     days: list[Day] = field(default_factory=list, metadata={"type": "Attribute", "tokens": True})
     at: XmlDateTime = field(init=False, default=XmlDateTime(2020, 1, 1, 0, 0, 0), metadata={"type": "Attribute"})
     opens: XmlTime = field(init=False, default=XmlTime(9, 0, 0), metadata={"type": "Element"})
+
+
+@dataclass
+class Group(metaclass=StableHashMeta):
+    """Two union members that both fit at every level of a recursive structure."""
+
+    class Meta:
+        name = "group"
+        namespace = "urn:e"
+
+    name: Optional[str] = field(default=None, metadata={"type": "Attribute"})
+    child: Optional[Union["Group", "Folder"]] = field(default=None, metadata={"type": "Element"})
+
+
+@dataclass
+class Folder(metaclass=StableHashMeta):
+    class Meta:
+        name = "folder"
+        namespace = "urn:e"
+
+    name: Optional[str] = field(default=None, metadata={"type": "Attribute"})
+    child: Optional[Union["Group", "Folder"]] = field(default=None, metadata={"type": "Element"})
+
+
+@dataclass
+class Chain(metaclass=StableHashMeta):
+    """A recursive field typed with a class that has a subclass: JSON decoding tries both at every level."""
+
+    class Meta:
+        name = "chain"
+        namespace = "urn:e"
+
+    label: Optional[str] = field(default=None, metadata={"type": "Attribute"})
+    next: Optional["Chain"] = field(default=None, metadata={"type": "Element"})
+
+
+@dataclass
+class BoldChain(Chain):
+    class Meta:
+        name = "boldChain"
+        namespace = "urn:e"
+
+
+@dataclass
+class MixedMoney(metaclass=StableHashMeta):
+    """Mixed content whose wildcard has typed choices: parsed values are written back as text."""
+
+    class Meta:
+        name = "mixedMoney"
+        namespace = "urn:e"
+
+    content: list[object] = field(
+        default_factory=list,
+        metadata={
+            "type": "Wildcard",
+            "namespace": "##any",
+            "mixed": True,
+            "choices": ({"name": "amount", "type": Decimal}, {"name": "count", "type": int}, {"name": "ratio", "type": float}, {"name": "b", "type": str}),
+        },
+    )
